@@ -474,6 +474,37 @@ def _always_leaves(stmts):
     return False
 
 
+def guard_form(fn):
+    """`if c: A else: B` with A leaving the block on every path (return / raise / continue / break) -> `if c: A` followed by B: the
+    guard-clause spelling is the canonical one (an inlined helper or an elif ladder of returns reads like a sequence of guards)."""
+    def leaves(stmts):
+        for s in stmts:
+            if isinstance(s, (ast.Raise, ast.Return, ast.Continue, ast.Break)):
+                return True
+            if isinstance(s, ast.If) and s.orelse and leaves(s.body) and leaves(s.orelse):
+                return True
+        return False
+
+    def fblock(stmts):
+        out = []
+        for s in stmts:
+            if isinstance(s, ast.If) and s.orelse and leaves(s.body):
+                rest = s.orelse
+                s.orelse = []
+                out.append(s)
+                out.extend(rest)
+            else:
+                out.append(s)
+        return out
+    # outermost first, so that a ladder unfolds completely: repeat innermost-first passes until stable
+    for _ in range(40):
+        before = sum(1 for n in ast.walk(fn) if isinstance(n, ast.If) and n.orelse)
+        fn = _map_blocks(fn, fblock)
+        if sum(1 for n in ast.walk(fn) if isinstance(n, ast.If) and n.orelse) == before:
+            break
+    return fn
+
+
 def unroll_const_loops(fn, consts, single=frozenset(), limit=64):
     """`for a, b in TABLE: body` with TABLE a literal tuple/list (in place, or a module constant assigned once) and a body that does not
     rebind the loop names:
@@ -805,6 +836,231 @@ def fold_constants(fn, consts, single):
     return fn
 
 
+_OPERATOR_BIN = {"add": ast.Add, "sub": ast.Sub, "mul": ast.Mult, "truediv": ast.Div, "floordiv": ast.FloorDiv, "mod": ast.Mod, "pow": ast.Pow,
+                 "matmul": ast.MatMult, "and_": ast.BitAnd, "or_": ast.BitOr, "xor": ast.BitXor, "lshift": ast.LShift, "rshift": ast.RShift}
+_OPERATOR_UN = {"neg": ast.USub, "pos": ast.UAdd, "not_": ast.Not, "invert": ast.Invert, "inv": ast.Invert}
+_OPERATOR_CMP = {"eq": ast.Eq, "ne": ast.NotEq, "lt": ast.Lt, "le": ast.LtE, "gt": ast.Gt, "ge": ast.GtE, "is_": ast.Is, "is_not": ast.IsNot}
+
+
+def fold_stdlib(ix, f, fn, consts, single):
+    """the functional spellings of the standard library are rewritten to the syntax they stand for (library model: `operator`, `functools`):
+    operator.neg(x) -> -x, operator.add(a, b) -> a + b, operator.getitem(a, k) -> a[k], operator.contains(a, b) -> b in a,
+    operator.itemgetter(k)(x) -> x[k], operator.attrgetter("n")(x) -> x.n, functools.partial(F, a, k=v)(b) -> F(a, b, k=v), and a
+    module-level `NAME = functools.partial(...)` / `NAME = lambda ...` bound exactly once is substituted where NAME is called."""
+    mods = {a for a, real in ix.module_aliases.get(f.mod, {}).items() if real == "operator"}
+    fmods = {a for a, real in ix.module_aliases.get(f.mod, {}).items() if real == "functools"}
+    names = {local: name for local, (m, name, level) in ix.imports.get(f.mod, {}).items() if m == "operator" and level == 0}
+    partials = {local for local, (m, name, level) in ix.imports.get(f.mod, {}).items() if m == "functools" and level == 0 and name == "partial"}
+    local = _stored_names(fn)
+
+    def opname(func):
+        if isinstance(func, ast.Attribute) and isinstance(func.value, ast.Name) and func.value.id in mods and func.value.id not in local:
+            return func.attr
+        if isinstance(func, ast.Name) and func.id in names and func.id not in local:
+            return names[func.id]
+        return None
+
+    def is_partial(func):
+        return (isinstance(func, ast.Attribute) and isinstance(func.value, ast.Name) and func.value.id in fmods and func.attr == "partial") \
+            or (isinstance(func, ast.Name) and func.id in partials and func.id not in local)
+
+    class F(ast.NodeTransformer):
+        def visit_Call(self, node):
+            # NAME(...) with NAME a module-level partial / lambda
+            if isinstance(node.func, ast.Name) and node.func.id in single and node.func.id not in local and node.func.id in consts:
+                v = consts[node.func.id]
+                if isinstance(v, ast.Lambda) or (isinstance(v, ast.Call) and is_partial(v.func)):
+                    node.func = copy.deepcopy(v)
+            self.generic_visit(node)
+            plain = not node.keywords and not any(isinstance(a_, ast.Starred) for a_ in node.args)
+            if isinstance(node.func, ast.Call) and is_partial(node.func.func) and node.func.args and not any(isinstance(a_, ast.Starred) for a_ in node.func.args + node.args) \
+                    and all(k.arg is not None for k in node.func.keywords + node.keywords):
+                later = {k.arg for k in node.keywords}
+                return ast.copy_location(ast.Call(func=node.func.args[0], args=list(node.func.args[1:]) + list(node.args),
+                                                  keywords=[k for k in node.func.keywords if k.arg not in later] + list(node.keywords)), node)
+            if isinstance(node.func, ast.Lambda) and plain:
+                la = node.func.args
+                ps = [x.arg for x in la.posonlyargs + la.args]
+                if len(ps) == len(node.args) and not la.vararg and not la.kwarg and not la.kwonlyargs and not la.defaults:
+                    return ast.copy_location(_Rename({}, dict(zip(ps, node.args))).visit(copy.deepcopy(node.func.body)), node)
+            # operator.itemgetter(k)(x) / attrgetter("n")(x)
+            if isinstance(node.func, ast.Call) and plain and len(node.args) == 1 and not node.func.keywords and len(node.func.args) == 1:
+                inner = opname(node.func.func)
+                if inner == "itemgetter":
+                    return ast.copy_location(ast.Subscript(value=node.args[0], slice=node.func.args[0], ctx=ast.Load()), node)
+                if inner == "attrgetter" and isinstance(node.func.args[0], ast.Constant) and isinstance(node.func.args[0].value, str) and node.func.args[0].value.isidentifier():
+                    return ast.copy_location(ast.Attribute(value=node.args[0], attr=node.func.args[0].value, ctx=ast.Load()), node)
+            op = opname(node.func)
+            if op is None or not plain:
+                return node
+            a = node.args
+            if op in _OPERATOR_BIN and len(a) == 2:
+                return ast.copy_location(ast.BinOp(left=a[0], op=_OPERATOR_BIN[op](), right=a[1]), node)
+            if op in _OPERATOR_UN and len(a) == 1:
+                return ast.copy_location(ast.UnaryOp(op=_OPERATOR_UN[op](), operand=a[0]), node)
+            if op in _OPERATOR_CMP and len(a) == 2:
+                return ast.copy_location(ast.Compare(left=a[0], ops=[_OPERATOR_CMP[op]()], comparators=[a[1]]), node)
+            if op == "contains" and len(a) == 2:
+                return ast.copy_location(ast.Compare(left=a[1], ops=[ast.In()], comparators=[a[0]]), node)
+            if op == "getitem" and len(a) == 2:
+                return ast.copy_location(ast.Subscript(value=a[0], slice=a[1], ctx=ast.Load()), node)
+            if op == "truth" and len(a) == 1:
+                return ast.copy_location(ast.Call(func=ast.Name(id="bool", ctx=ast.Load()), args=[a[0]], keywords=[]), node)
+            return node
+    fn = F().visit(fn)
+    ast.fix_missing_locations(fn)
+    return fn
+
+
+TRANSPARENT_DECORATORS = frozenset("staticmethod classmethod property abstractmethod abc.abstractmethod functools.wraps wraps typing.no_type_check no_type_check "
+                                   "typing.final final typing.override override".split())
+MEMO_DECORATORS = frozenset("functools.lru_cache lru_cache functools.cache cache functools.cached_property cached_property".split())
+
+
+def _decorator_name(d):
+    return u(d.func) if isinstance(d, ast.Call) else u(d)
+
+
+def _wrapper_of(dnode, call_args):
+    """(wrapper FunctionDef, name bound to the decorated function) of a decorator written as a function that defines and returns its
+    wrapper; one level of decorator factory (`@deco(arg)`) is unfolded with its arguments substituted"""
+    body = [x for x in dnode.body if not (isinstance(x, ast.Expr) and isinstance(x.value, ast.Constant))]
+    inner = [x for x in body if isinstance(x, ast.FunctionDef)]
+    if len(inner) != 1 or not isinstance(body[-1], ast.Return) or not isinstance(body[-1].value, ast.Name) or body[-1].value.id != inner[0].name:
+        return None
+    for x in body[:-1]:
+        if x is inner[0]:
+            continue
+        # `wrapper.__doc__ = ...`-style attribute decoration of the wrapper is allowed
+        if isinstance(x, ast.Assign) and all(isinstance(t, ast.Attribute) and u(t.value) == inner[0].name for t in x.targets):
+            continue
+        return None
+    params = [a.arg for a in dnode.args.posonlyargs + dnode.args.args]
+    if dnode.args.vararg or dnode.args.kwarg or dnode.args.kwonlyargs:
+        return None
+    if call_args is None:
+        if len(params) != 1:
+            return None
+        w = inner[0]
+        if any(_decorator_name(d) not in ("functools.wraps", "wraps") for d in w.decorator_list):
+            return None
+        return w, params[0]
+    # factory: bind its parameters to the (side-effect free) argument expressions and unfold the decorator it returns
+    if len(call_args) > len(params) or len(params) - len(call_args) > len(dnode.args.defaults):
+        return None
+    if not all(isinstance(a, (ast.Constant, ast.Name, ast.Attribute, ast.Tuple)) for a in call_args):
+        return None
+    mapping = dict(zip(params, call_args))
+    for p_, d in zip(params[len(params) - len(dnode.args.defaults):], dnode.args.defaults):
+        mapping.setdefault(p_, d)
+    got = _wrapper_of(inner[0], None)
+    if got is None:
+        return None
+    w, fname = got
+    if _stored_names(w) & set(mapping):
+        return None
+    return _Rename({}, mapping).visit(copy.deepcopy(w)), fname
+
+
+def compose_decorators(ix):
+    """`@deco def f(...)` with `deco` a function of the package that builds a wrapper: f becomes the wrapper (with f's own signature when the
+    wrapper takes *args/**kwargs) and the undecorated function is kept as `_wrapped_<f>`, a helper unknown to the rules, so that the normal
+    form inlines it where the wrapper calls it.  What the wrapper adds - a check, a conversion of the result, a swallowed exception, a cache
+    - is then in front of every rule that reads f.  Decorators that cannot be read this way are recorded in `Func.opaque`."""
+    from .index import Func
+    for q, f in list(ix.funcs.items()):
+        if q != f.qual or not f.node.decorator_list:
+            continue
+        node = f.node
+        f.opaque = []
+        f.memo = []
+        for d in reversed(node.decorator_list):
+            name = _decorator_name(d)
+            if name in TRANSPARENT_DECORATORS or name.endswith((".setter", ".getter", ".deleter")):
+                continue
+            if name in MEMO_DECORATORS:
+                f.memo.append(name)
+                continue
+            dq = ix.resolve_name(f.mod, name) if "." not in name else None
+            if dq is None and f.cls and name.count(".") == 0:
+                dq = "%s.%s" % (f.cls, name) if "%s.%s" % (f.cls, name) in ix.funcs else None
+            D = ix.funcs.get(dq) if dq else None
+            got = _wrapper_of(D.node, d.args if isinstance(d, ast.Call) else None) if D is not None and (not isinstance(d, ast.Call) or not d.keywords) else None
+            if got is None:
+                f.opaque.append(name)
+                continue
+            w, fname = got
+            w = copy.deepcopy(w)
+            inner_name = "_wrapped_" + node.name.lstrip("_")
+            n = 0
+            while "%s.%s" % (f.cls or f.mod, inner_name) in ix.funcs:
+                n += 1
+                inner_name = "_wrapped%d_%s" % (n, node.name.lstrip("_"))
+            fparams = [a.arg for a in node.args.posonlyargs + node.args.args]
+            wa = w.args
+            wpos = [a.arg for a in wa.posonlyargs + wa.args]
+            if node.args.vararg or node.args.kwarg or wa.kwonlyargs or len(wpos) > len(fparams) or (len(wpos) < len(fparams) and not wa.vararg):
+                f.opaque.append(name)
+                continue
+            ren = {a: b for a, b in zip(wpos, fparams) if a != b}
+            if set(ren.values()) & (_stored_names(w) - set(wpos)):
+                f.opaque.append(name)
+                continue
+            rest = fparams[len(wpos):]
+            va, ka = (wa.vararg.arg if wa.vararg else None), (wa.kwarg.arg if wa.kwarg else None)
+            is_method = bool(f.cls) and "staticmethod" not in [_decorator_name(x) for x in node.decorator_list]
+
+            class W(ast.NodeTransformer):
+                def visit_Call(self, c):
+                    self.generic_visit(c)
+                    if isinstance(c.func, ast.Name) and c.func.id == fname:
+                        args = []
+                        for a in c.args:
+                            if isinstance(a, ast.Starred) and isinstance(a.value, ast.Name) and a.value.id == va:
+                                args.extend(ast.Name(id=r, ctx=ast.Load()) for r in rest)
+                            else:
+                                args.append(a)
+                        kws = [k for k in c.keywords if not (k.arg is None and isinstance(k.value, ast.Name) and k.value.id == ka)]
+                        kws += [ast.keyword(arg=a.arg, value=ast.Name(id=a.arg, ctx=ast.Load())) for a in node.args.kwonlyargs
+                                if len(kws) != len(c.keywords)]
+                        if is_method and args and isinstance(args[0], ast.Name) and args[0].id == fparams[0]:
+                            return ast.copy_location(ast.Call(func=ast.Attribute(value=args[0], attr=inner_name, ctx=ast.Load()), args=args[1:], keywords=kws), c)
+                        return ast.copy_location(ast.Call(func=ast.Name(id=inner_name, ctx=ast.Load()), args=args, keywords=kws), c)
+                    return c
+
+                def visit_Subscript(self, sub):
+                    self.generic_visit(sub)
+                    if isinstance(sub.value, ast.Name) and sub.value.id == va and isinstance(sub.slice, ast.Constant) and isinstance(sub.slice.value, int) \
+                            and 0 <= sub.slice.value < len(rest) and isinstance(sub.ctx, ast.Load):
+                        return ast.copy_location(ast.Name(id=rest[sub.slice.value], ctx=ast.Load()), sub)
+                    return sub
+            w = _Rename(ren, {}).visit(w)
+            for a in w.args.posonlyargs + w.args.args:
+                a.arg = ren.get(a.arg, a.arg)
+            w = W().visit(w)
+            pre = []
+            loads = {x.id for x in ast.walk(w) if isinstance(x, ast.Name)}
+            if va and va in loads:
+                pre.append(ast.Assign(targets=[ast.Name(id=va, ctx=ast.Store())], value=ast.Tuple(elts=[ast.Name(id=r, ctx=ast.Load()) for r in rest], ctx=ast.Load())))
+            if ka and ka in loads:
+                pre.append(ast.Assign(targets=[ast.Name(id=ka, ctx=ast.Store())], value=ast.Dict(keys=[], values=[])))
+            outer = ast.FunctionDef(name=node.name, args=copy.deepcopy(node.args), body=pre + w.body,
+                                    decorator_list=[x for x in node.decorator_list if _decorator_name(x) in ("staticmethod", "classmethod", "property")],
+                                    returns=None, type_comment=None)
+            if hasattr(node, "type_params"):
+                outer.type_params = []
+            ast.copy_location(outer, node)
+            ast.fix_missing_locations(outer)
+            inner = copy.deepcopy(node)
+            inner.name = inner_name
+            inner.decorator_list = [x for x in node.decorator_list if _decorator_name(x) in ("staticmethod", "classmethod")]
+            iq = "%s.%s" % (f.cls or f.mod, inner_name)
+            ix.funcs[iq] = Func(f.mod, iq, inner, cls=f.cls)
+            ix.funcs[iq].decorated_original_of = q
+            node = outer
+        f.node = node
+
+
 def _calls_outside_scopes(node):
     """Call nodes of a simple statement that are evaluated exactly when the statement runs (not inside lambdas / comprehensions /
     the short-circuited operands of and/or/if-expressions)"""
@@ -990,8 +1246,9 @@ def inline_function(ix, f, depth=2, _stack=(), keep=frozenset(), fn=None):
             return LocalFunc(g)
         return _resolve_helper(ix, f, call, keep, _stack)
 
-    def expand(call, k, same_name=None):
-        """k(value expr or None) -> statements continuing after the helper returned that value"""
+    def expand(call, k, same_name=None, tail=False):
+        """k(value expr or None) -> statements continuing after the helper returned that value; tail: the call is the whole value of a
+        `return`, so the helper's own returns are the caller's and its body is taken as it is (no continuation to distribute)"""
         g = resolve(call)
         if g is None:
             return None
@@ -1031,7 +1288,10 @@ def inline_function(ix, f, depth=2, _stack=(), keep=frozenset(), fn=None):
         ren = _Rename(names, exprs)
         body = [ren.visit(copy.deepcopy(s)) for s in body]
         try:
-            out = pre + _tailify(body, k, k(None))
+            if tail:
+                out = pre + body + ([] if _always_leaves(body) else [ast.Return(value=ast.Constant(value=None), lineno=call.lineno, col_offset=0)])
+            else:
+                out = pre + _tailify(body, k, k(None))
         except _Abort:
             return None
         for s in out:
@@ -1046,6 +1306,10 @@ def inline_function(ix, f, depth=2, _stack=(), keep=frozenset(), fn=None):
         """-> (replacement statements, rest absorbed?)"""
         if isinstance(s, ast.Expr) and isinstance(s.value, ast.Call):
             r = expand(s.value, lambda v: [])
+            if r is not None:
+                return r, False
+        if isinstance(s, ast.Return) and isinstance(s.value, ast.Call):
+            r = expand(s.value, None, tail=True)
             if r is not None:
                 return r, False
         if isinstance(s, ast.Assign) and len(s.targets) == 1 and isinstance(s.value, ast.Call) and resolve(s.value) is not None:
@@ -1329,17 +1593,20 @@ def normal_form(ix, f, keep):
         lambda t: desugar_walrus(t),
         lambda t: dispatch_comprehensions(t),
         lambda t: fold_constants(t, consts, single),
+        lambda t: fold_stdlib(ix, f, t, consts, single),
         lambda t: unroll_const_loops(t, consts, single),
         lambda t: materialise_generators(ix, f, t, keep),
         lambda t: inline_function(ix, f, keep=keep, fn=t),
         lambda t: desugar_match(t),
         lambda t: inline_expressions(ix, f, t, keep=keep),
         lambda t: fold_constants(t, consts, single),
+        lambda t: fold_stdlib(ix, f, t, consts, single),
         lambda t: split_unpacking(t),
         lambda t: propagate_aliases(t, ix.accessor_names()),
         lambda t: propagate_block_aliases(t, ix.accessor_names()),
         lambda t: propagate_templates(t),
         lambda t: eliminate_temporaries(t),
+        lambda t: guard_form(t),
     ]
     prev = None
     disabled = set()
